@@ -14,6 +14,14 @@ DEDUCTIVE = [
      "opts": {"z3_probe_ms": 400, "cvc5_probe_s": 6}},
     # one line, both decodes: where they denote the same values and where not
     {"module": "rnapolis.parser_v2", "sidecar": "contracts.parser_v2_c", "targets": ["lemma:readers_agree_on_a_line", "lemma:record_test_agrees"]},
+    # residue connectivity (O3'-P below 2.4 A) in both structure models, and that the two contracts denote the same predicate
+    {"module": "rnapolis.tertiary", "sidecar": "contracts.connectivity_c",
+     "targets": ["Residue3D.is_connected", "Residue3D.find_atom", "lemma:same_predicate_of_coordinates", "lemma:connectivity_rules_agree"]},
+    {"module": "rnapolis.tertiary_v2", "sidecar": "contracts.connectivity_v2_c", "targets": ["Residue.is_connected"]},
+    # the residue-level reader's mmCIF leg: per-row decode of atom_site and try_parse_int (contracts/parser_cif_c.py, also targets of C08)
+    {"module": "rnapolis.parser", "sidecar": "contracts.parser_cif_c",
+     "targets": ["parse_cif@decode", "try_parse_int", "lemma:numeral_is_int_literal", "lemma:signed_numeral_shape"],
+     "opts": {"z3_probe_ms": 400, "cvc5_probe_s": 6}},
 ]
 TRUSTED = ["gen/emit.py + gen/atomtables_c09.py emitters (independent of the library's writers, unverified)", "numpy", "pandas groupby", "mmcif IoAdapterPy tokeniser",
            "scipy KD-tree (clash filter of the residue-level reader)", "CPython 3.12",
@@ -21,7 +29,12 @@ TRUSTED = ["gen/emit.py + gen/atomtables_c09.py emitters (independent of the lib
            "str.strip(): uninterpreted py_strip in both sidecars (the same symbol); float(str) / int(str): pyvc's py_float / py_float_ok / ext_int_of_str; pandas.to_numeric on the table-level reader's number texts is taken to be int()/float() of the text",
            "str.splitlines() (table-level reader) / IO.readlines() after seek(0) (residue-level reader): the list of the file's lines, nothing else assumed",
            "the assumed callee contracts and externals of contracts/parser_c.py listed under C08 (KD-tree, filter_clashing_atoms is verified there)",
-           "z3 / cvc5 (strings, arrays, quantifiers)"]
+           "z3 / cvc5 (strings, arrays, quantifiers)",
+           # connectivity (contracts/connectivity_c.py, contracts/connectivity_v2_c.py)
+           "numpy.linalg.norm(v): the non-negative n with n*n == v.v, returned as a numpy scalar whose .item() is the Python float of the same value (external + assumed contract NpFloat.item); numpy.array([x, y, z]) is the 3-vector; vector subtraction componentwise; arithmetic over the reals (1.5 * 1.6 is exactly 2.4)",
+           "tertiary_v2.Residue.find_atom (pandas mask over the atom-name column, first matching row wrapped in an Atom whose cached property `coordinates` is numpy.array of the row's coordinate cells) is an ASSUMED callee contract: None iff the residue's table has no row of that name (uninterpreted has_atom(residue, name)), otherwise an object whose .coordinates are those of the first such row (uninterpreted atom_x/y/z(residue, name)); reads only",
+           "the trusted externals and assumed callee contracts of contracts/parser_cif_c.py listed under C08 (mmcif reader document, IO.seek, int()/float() of texts, dict(zip(..)) encoding, filter_clashing_atoms callee view)",
+           "tertiary_v2.Residue.chain_id / residue_number / insertion_code / residue_name getters: ASSUMED pure, value unconstrained (str / int / Optional[str] / str); the unchanged is_connected never calls them - they exist so that a changed one that does is executed and judged instead of being rejected"]
 ASSUMPTIONS = [
     "tables carry no alternate locations and no two atoms closer than 0.5 A (the residue-level reader's clash filter is C08's subject)",
     "tables can be written in both formats: one-character non-blank chain ids (a blank PDB chain has no mmCIF counterpart, so it is outside this property)",
@@ -35,6 +48,9 @@ ASSUMPTIONS = [
     "definitional lemma strip_definition of contracts/parser_v2_c.py (NOT proved, defines py_strip on texts of at most 8 characters: first to last non-whitespace character) - used for the one-character columns 22 and 27 and the record name",
     "definitional lemma wfl_definition of contracts/parser_c.py (abbreviation wfl(l) = wf_line(lines[l])); the residue-level decode is proved for well-formed PDB text (wf_pdb: record names in columns 1-6, ATOM/HETATM lines of >= 27 columns whose numeric columns parse) that has at least one ATOM/HETATM record",
     "where the two decodes differ (stated, not judged): a blank chain column 22 is ' ' for the residue-level reader and '' for the table-level reader (any whitespace character there: kept vs removed); a whitespace character other than the blank in the insertion-code column 27 is kept by the residue-level reader and is None for the table-level reader; ' ATOM ' style record names (not left-aligned in columns 1-6) are ATOM records only for the table-level reader",
+    # connectivity
+    "definitional lemma sqdist_definition of contracts/connectivity_c.py (NOT proved; explicit definition of the abbreviation sqdist(x1,y1,z1,x2,y2,z2) = (x1-x2)^2+(y1-y2)^2+(z1-z2)^2, unfolded for one pair of points at a time)",
+    "'the O3' atom' / 'the P atom' of a residue is the FIRST atom of that name in the residue's atom sequence (residue-level model: proved of Residue3D.find_atom; table-level model: assumed of the pandas lookup); Residue3D is modelled as an object that is never written, its atoms as records (name, x, y, z); chain / number / icode of the base class are read as stored attributes",
 ]
 EXPLANATION = ("DEDUCTIVE (string level): for one PDB ATOM/HETATM line both readers' decode is under contract on the real code - parser.parse_pdb (target parse_pdb@decode of contracts/parser_c.py: every atom is `decoded` from its line: "
                "name = strip(cols 13-16), residue name = strip(18-20), chain = column 22 as is, number = int(strip(23-26)), icode = None if column 27 is ' ' else column 27, x/y/z/occupancy = float(strip(31-38 / 39-46 / 47-54 / 55-60))) and "
@@ -46,7 +62,16 @@ EXPLANATION = ("DEDUCTIVE (string level): for one PDB ATOM/HETATM line both read
                "BOUNDED: generated tables (template nucleotides from small corpus files under random rigid motions incl. far-from-origin placements that need the full "
                "8-column coordinate field, renumbering with negative numbers / insertion codes, broken or near-threshold O3'-P junctions, dropped atoms, hetero groups) and corpus "
                "structures are written as PDB and mmCIF by independent emitters and read by both reader generations; residues, atoms, coordinates, O3'-P connectivity and |chi| "
-               "are compared with the table and across the views.")
+               "are compared with the table and across the views. "
+               "DEDUCTIVE (connectivity, added later - of the 'NOT deductive' list above the pairwise connectivity test is now under contract; Structure.connected_residues, which walks a pandas groupby, stays bounded): "
+               "tertiary.Residue3D.is_connected (with Residue3D.find_atom proved: None iff no atom of that name, else the first atom of that name) and tertiary_v2.Residue.is_connected (its pandas atom lookup assumed) each carry the property's rule as postcondition: "
+               "the result is True iff the O3' atom of self and the P atom of the next residue both exist and are less than 2.4 A apart - no exception, nothing written, and nothing else (chain ids, residue numbers, insertion codes, names, model) enters: "
+               "the clause does not mention them, so an early exit on numbering or chain fails it. 2.4 is pinned as a literal in the contracts; the code's 1.5 * AVERAGE_OXYGEN_PHOSPHORUS_DISTANCE_COVALENT is evaluated from the real module constant of the tree under verification. "
+               "The residue-level contract states the test on the squared distance (< 2.4^2), the table-level one on the Euclidean norm (< 2.4); lemma same_predicate_of_coordinates proves both are the same predicate of the two atoms' coordinates, and "
+               "lemma connectivity_rules_agree that, given the same existence facts and coordinates, both rules give the same answer. "
+               "DEDUCTIVE (mmCIF leg of the residue-level reader, added later; details and preconditions under C08): try_parse_int parses an optionally '-'-signed digit string to exactly the number written (negative residue numbers survive), None exactly for non-literals such as '?' / '.'; "
+               "parse_cif@decode (prefix contract up to the end of the atom_site loop): one atom per atom_site row in file order with label / auth identity, insertion code (None for both null markers), model (default 1), name (label_atom_id), coordinates and occupancy exactly as written. "
+               "The table-level reader's mmCIF leg (parse_cif_atoms, pandas) stays bounded.")
 
 RULES = {
     "residues": "every view reports exactly the table's residues (chain, number, insertion code, name), each once",
